@@ -1022,6 +1022,7 @@ archive_entry_set_hardlink_utf8(struct archive_entry *entry, const char *target)
 {
 	if (target == NULL && (entry->ae_set & AE_SET_SYMLINK))
 		return;
+	entry->ae_set &= ~AE_SET_SYMLINK;
 	archive_mstring_copy_utf8(&entry->ae_linkname, target);
 	if (target != NULL)
 		entry->ae_set |= AE_SET_HARDLINK;
@@ -1034,6 +1035,7 @@ archive_entry_copy_hardlink(struct archive_entry *entry, const char *target)
 {
 	if (target == NULL && (entry->ae_set & AE_SET_SYMLINK))
 		return;
+	entry->ae_set &= ~AE_SET_SYMLINK;
 	archive_mstring_copy_mbs(&entry->ae_linkname, target);
 	if (target != NULL)
 		entry->ae_set |= AE_SET_HARDLINK;
@@ -1046,6 +1048,7 @@ archive_entry_copy_hardlink_w(struct archive_entry *entry, const wchar_t *target
 {
 	if (target == NULL && (entry->ae_set & AE_SET_SYMLINK))
 		return;
+	entry->ae_set &= ~AE_SET_SYMLINK;
 	archive_mstring_copy_wcs(&entry->ae_linkname, target);
 	if (target != NULL)
 		entry->ae_set |= AE_SET_HARDLINK;
@@ -1058,6 +1061,7 @@ archive_entry_update_hardlink_utf8(struct archive_entry *entry, const char *targ
 {
 	if (target == NULL && (entry->ae_set & AE_SET_SYMLINK))
 		return (0);
+	entry->ae_set &= ~AE_SET_SYMLINK;
 	if (target != NULL)
 		entry->ae_set |= AE_SET_HARDLINK;
 	else
@@ -1078,6 +1082,7 @@ _archive_entry_copy_hardlink_l(struct archive_entry *entry,
 
 	if (target == NULL && (entry->ae_set & AE_SET_SYMLINK))
 		return (0);
+	entry->ae_set &= ~AE_SET_SYMLINK;
 	r = archive_mstring_copy_mbs_len_l(&entry->ae_linkname,
 	    target, len, sc);
 	if (target != NULL && r == 0)
